@@ -59,12 +59,12 @@ func vC13Next(opt ModeOpt, server bool, r network.Reachability) bool {
 }
 
 type vC13Node struct {
-	c    *vh.Case
-	n    *vNet
-	opt  ModeOpt
+	c     *vh.Case
+	n     *vNet
+	opt   ModeOpt
 	peers []peer.ID
-	open []*vInStream // inbound streams opened while serving that the requester has not ended
-	seq  int
+	open  []*vInStream // inbound streams opened while serving that the requester has not ended
+	seq   int
 }
 
 func vC13NewNode(t *testing.T, c *vh.Case, opt ModeOpt, k int) *vC13Node {
@@ -163,7 +163,7 @@ func (nd *vC13Node) closeAll() {
 
 func TestVerif_C13_modes(t *testing.T) {
 	vh.Run(t, vh.Spec{Prop: "C13", Unit: "modes", Quick: 1500, Thorough: 50000, CostMs: 4,
-		Rule: "PRNG Mode option (auto, client, server, autoserver) x sequence of 1-8 EvtLocalReachabilityChanged events (public/private/unknown) emitted on the host's event bus, synctest.Wait() between steps; before each event requests on 0-2 new and on already-open inbound streams (server: answered; client: the host has no handler and a stream dispatched to the DHT handler anyway is reset unanswered); at each event optionally a request racing with it (written just before / just after the emit, on an open stream, on a new stream, or on a stream whose protocol negotiation overlaps the event; no Wait in between); after each event at rest: handler registered <=> mode(last event, option), every inbound stream open at a switch to client has been reset and its handler returned, streams open across a non-switch still serve; non-trivial = at least one real mode switch with open streams or a raced request; distinct by (option, event sequence, race outcomes)",
+		Rule:    "PRNG Mode option (auto, client, server, autoserver) x sequence of 1-8 EvtLocalReachabilityChanged events (public/private/unknown) emitted on the host's event bus, synctest.Wait() between steps; before each event requests on 0-2 new and on already-open inbound streams (server: answered; client: the host has no handler and a stream dispatched to the DHT handler anyway is reset unanswered); at each event optionally a request racing with it (written just before / just after the emit, on an open stream, on a new stream, or on a stream whose protocol negotiation overlaps the event; no Wait in between); after each event at rest: handler registered <=> mode(last event, option), every inbound stream open at a switch to client has been reset and its handler returned, streams open across a non-switch still serve; non-trivial = at least one real mode switch with open streams or a raced request; distinct by (option, event sequence, race outcomes)",
 		Clauses: []string{"handlers-iff-mode-of-last-event", "server-mode-answers", "client-mode-answers-nothing", "open-streams-reset-on-switch-to-client", "raced-request-answered-or-reset", "fixed-mode-never-changes", "client-mode-stream-handler-returns"}},
 		func(c *vh.Case) {
 			c.Bubble(t, time.Hour, "mode-switch-hang", func(t *testing.T) {
@@ -383,7 +383,7 @@ func vC13Barrier(n *vNet, tag *atomic.Int64) {
 
 func TestVerifRace_C13_race(t *testing.T) {
 	vh.Run(t, vh.Spec{Prop: "C13", Unit: "race", Quick: 12, Thorough: 400, CostMs: 600, WallS: 240,
-		Rule: "real time, no bubble, -race build: Mode(auto|autoserver), ~300 PRNG reachability events emitted by one goroutine while four goroutines issue PING requests, two on fresh inbound streams (handler looked up at the host, as the multistream dispatcher does) and two on long-lived streams re-opened whenever they die; every completed request is answered with its own echo or fails with a stream reset; then, at rest (barrier event through the same subscription): handler registered <=> mode(last event), open streams still serve if server; finally a private event: no inbound stream is left open and every handler goroutine has returned; race-detector reports in /repo code are violations; non-trivial = both outcomes (answered, reset) observed and >= 20 mode switches; distinct by outcome counts",
+		Rule:    "real time, no bubble, -race build: Mode(auto|autoserver), ~300 PRNG reachability events emitted by one goroutine while four goroutines issue PING requests, two on fresh inbound streams (handler looked up at the host, as the multistream dispatcher does) and two on long-lived streams re-opened whenever they die; every completed request is answered with its own echo or fails with a stream reset; then, at rest (barrier event through the same subscription): handler registered <=> mode(last event), open streams still serve if server; finally a private event: no inbound stream is left open and every handler goroutine has returned; race-detector reports in /repo code are violations; non-trivial = both outcomes (answered, reset) observed and >= 20 mode switches; distinct by outcome counts",
 		Clauses: []string{"race-request-answered-or-reset", "race-final-mode-is-mode-of-last-event", "race-no-stream-left-open", "race-handlers-all-returned"}},
 		func(c *vh.Case) {
 			r := c.R
